@@ -80,8 +80,10 @@ func IteBool(c, a, b bool) bool { return a }
 func Hash32(b []byte) [32]byte    { return [32]byte{} }
 func BytesOf32(h [32]byte) []byte { return nil }
 
-// SQLKind classifies a constant SQL statement text (see sqlmodel.go).
-func SQLKind(query string) int { return 0 }
+// SQLParse parses a constant SQL statement text (see sqlmodel.go): op (0 unknown, 1 create,
+// 2 select, 3 insert, 4 update, 5 delete), insert conflict mode (0 plain, 1 replace, 2 ignore),
+// the columns named (1 logID, 2 chkpt, 3 range) and whether it ends in WHERE logID = ?.
+func SQLParse(query string) (op int, conflict int, cols []int, whereKey bool) { return }
 
 // Deadlocked reports whether RunThreads ended with unfinished threads and none runnable.
 func Deadlocked() bool { return false }
